@@ -446,10 +446,23 @@ def _splice_discipline(ctx, rule):
     from . import c05
     return c05.r1_splice_discipline(ctx, rule)
 
+def _shared_rule(mod, name, **kw):
+    def run(ctx, rule):
+        import importlib
+        return getattr(importlib.import_module('sa.props.' + mod), name)(ctx, rule, **kw)
+    return run
+
+
 def rules(tier):
     return [('C06.R1', r1_relative_frequency), ('C06.R2', r2_all_items_written), ('C06.R3', c07.r6_wipe_before_write),
             ('C06.R4', r4_coverage_algebra), ('C06.R5', r5_supported_only), ('C06.R6', r6_determinism),
-            ('C06.R7', c07.r1b_validate_final_value), ('C06.R8', r8_memo), ('C06.R9', r9_coverage_plumbing), ('C06.R10', _counters), ('C06.R11', _prince_tally), ('C06.R12', r12_counts_per_training), ('C06.R13', _splice_discipline)]
+            ('C06.R7', c07.r1b_validate_final_value), ('C06.R8', r8_memo), ('C06.R9', r9_coverage_plumbing), ('C06.R10', _counters), ('C06.R11', _prince_tally), ('C06.R12', r12_counts_per_training), ('C06.R13', _splice_discipline),
+            # C06-ca: first pass reads the option under a misspelt key - N is the number of lines, not the sum of the counts
+            ('C06.R14', _shared_rule('c19', 'r1_three_passes')),
+            # C06-cb: mask of a multiword's later words sliced from the run's first letters
+            ('C06.R15', _shared_rule('c03', 'r2_mask_producer', lower_only=False)),
+            # C19-ca idea: a counter read through getattr with a default under a misspelt name
+            ('C06.R16', _shared_rule('plumbing', 'defaulted_getattr'))]
 
 
 META = {
